@@ -21,13 +21,14 @@ VARIABLE bringup
 B29 == {<<>>, <<"y">>, <<"y", "y">>}
 B30 == {<<"w">>, <<"y", "w">>, <<"e", "y">>}
 Call29 == [kind : UserKinds, body : B29]
-Call30 == [kind : Kinds \ {"intro"}, body : B30] \cup {[kind |-> "intro", body |-> <<>>]}
+Call30 == [kind : Kinds \ {"intro", "methnr"}, body : B30] \cup {[kind |-> "intro", body |-> <<>>]}
 CallLz == [kind : {"meth"}, body : {<<>>, <<"y">>}]
 
 (* C29 also with property accesses in between: Properties.Get/Set always run in their own task and hold X's lock
    while the getter / setter is suspended, so the dispatcher meets a busy interface lock when the next method call
    arrives (at least two method calls, or there is no order to speak of) *)
-Call29p == Call29 \cup [kind : {"get", "set"}, body : {<<"y">>}]
+Call29p == [kind : {"meth", "methmut"}, body : B29] \cup [kind : {"methnr"}, body : {<<"y">>, <<"y", "y">>}]
+           \cup [kind : {"get", "set"}, body : {<<"y">>}]
 NUser(cs) == Cardinality({j \in DOMAIN cs : cs[j].kind \in UserKinds})
 Cfgs == CASE CLASS = "c29" -> UNION {{c \in [spawn : BOOLEAN, calls : [1..n -> Call29p]] : NUser(c.calls) >= 2} : n \in 2..MAXN}
           [] CLASS = "c30" -> UNION {[spawn : BOOLEAN, calls : [1..n -> Call30]] : n \in 2..MAXN}
